@@ -15,7 +15,8 @@ import itertools
 ALIASES = ("'l = Nil | Cons['int, ^],\n"
            "'lb = Nil | Cons[('int | 'bin), ^],\n"
            "'tr = Leaf | Node[^, 'int, ^],\n"
-           "'pth = Root | Path['int, ^],\n")
+           "'pth = Root | Path['int, ^],\n"
+           "'ch = End | (next: ^),\n")
 
 EXPRS = [
     ("int", "'int"), ("bin", "'bin"), ("nil", "[]"), ("ok", "Ok"), ("a", "A"), ("a_int", "A['int]"),
@@ -29,6 +30,7 @@ EXPRS = [
     ("list", "'l"), ("list_b", "'lb"), ("tree", "'tr"), ("path", "'pth"), ("path_or_nil", "'pth | []"),
     ("list_or_nil", "'l | []"), ("cons_only", "Cons['int, 'l]"), ("pair_of_lists", "['l, 'lb]"),
     ("a_of_list", "A['l]"), ("a_of_list_b", "A['lb]"),
+    ("chain", "'ch"), ("link_int", "Link[next: 'int]"), ("link_end", "Link[next: End]"),
 ]
 
 
